@@ -55,6 +55,16 @@ theorem gen_keep_execute :
   decide
 
 set_option maxRecDepth 100000 in
+/-- the stealing scan, the whole visitor: `for_each` calls it once per 128-entry block of the
+thread-local storage, so it must return at once when an earlier block has already yielded a task;
+inside a block it stops at the first success (model: `wSteal k` → `chk (steal k)` → run, never another
+`try_pop` into the same `task`) -/
+theorem gen_steal_scan :
+    Gen.Exec.stealBlock =
+      "_local_task_queues.for_each([&](TaskQueue*iter,TaskQueue*end){if(steal_success){return;}while(iter!=end){auto&queue=*iter++;steal_success=queue.try_pop<true,false>(task);if(steal_success){return;}}});" := by
+  decide
+
+set_option maxRecDepth 100000 in
 /-- `enqueue_task`: local queue only on a thread running in the pool, with capacity > 0 and
 `size() < capacity`; otherwise the global queue -/
 theorem gen_enqueue_task :
@@ -89,7 +99,14 @@ theorem gen_queue_ticket_ops :
 set_option maxRecDepth 100000 in
 /-- the front end's failure branch and the three `invoke`s -/
 theorem gen_front_end :
+    Gen.Exec.executeFailCond = "(__builtin_expect(false||(ret!=0),false))" ∧
     Gen.Exec.executeFailAction = "future=Future<R,F>();" ∧
+    Gen.Exec.stmts_execute.drop 3 =
+      ["autofuture=s.promise.get_future();", "MoveOnlyFunction<void(void)>function{::std::move(s)}",
+       "autoret=invoke(::std::move(function));",
+       "if((__builtin_expect(false||(ret!=0),false))){future=Future<R,F>();}", "returnfuture;"] ∧
+    Gen.Exec.stmts_submit.drop 2 =
+      ["MoveOnlyFunction<void(void)>function{::std::move(s)}", "returninvoke(::std::move(function));"] ∧
     Gen.Exec.stmts_basic_invoke = ["return-1;"] ∧
     Gen.Exec.stmts_inplace_invoke = ["RunnerScopescope{*this}", "function();", "return0;"] ∧
     Gen.Exec.skel_newthread_invoke =
